@@ -15,12 +15,17 @@ PRELUDE = ("fn show(v: int32) -> int32 { let _ = string_println(int32_to_string(
 EPILOGUE = "    0\n}\nfn main() { let _ = f(1); () }\n"
 
 
-def render(toks):
-    """returns text, uses [(offset, name, expected_binder_id)], binders {id: offset}"""
-    out = [PRELUDE]
-    pos = len(PRELUDE)
+GLOBALS = "fn x(q: int32) -> int32 { q }\nfn y(q: int32) -> int32 { q }\n"
+
+
+def render(toks, with_globals=False):
+    """returns text, uses [(offset, name, expected_binder_id)], binders {id: offset};
+    with_globals: top-level functions named like the local names exist too (a local binder must still win)"""
+    pre = (GLOBALS if with_globals else "") + PRELUDE
+    out = [pre]
+    pos = len(pre)
     uses, binders = [], {}
-    binders[1] = PRELUDE.index("f(p:") + 2
+    binders[1] = pre.index("f(p:") + 2
     stack = []
     ind = 1
 
@@ -117,6 +122,46 @@ def run(tier, rep):
         reqs.append({"id": i, "text": text})
         meta.append((toks, text, uses, binders))
     answers = gv_parallel("hir", reqs, shards=NCPU)
+    # ---- the same skeletons next to top-level functions x and y: a local binder in scope still wins; only uses the model
+    # calls unbound may (and for x, y must) resolve to the top-level function
+    greqs, gmeta = [], []
+    for i, toks in enumerate(progs):
+        text, uses, binders = render(toks, with_globals=True)
+        greqs.append({"id": i, "text": text})
+        gmeta.append((toks, text, uses, binders))
+    ganswers = gv_parallel("hir", greqs, shards=NCPU)
+    global_uses = 0
+    for (toks, text, uses, binders), a in zip(gmeta, ganswers):
+        if a["verdict"] != "ok":
+            rep.violation(f"lowering-{a['verdict']}:with-globals", {"program": text, "answer": {k: a.get(k) for k in ('verdict', 'msg', 'at', 'diags')}}, replay={"toks": toks})
+            continue
+        real = {u["at"]: u for u in a["uses"] if u["x"] in ("x", "y", "p")}
+        off2id = {off: bid for bid, off in binders.items()}
+        hid2id = {}
+        for b in a["binds"]:
+            if b.get("at") is not None and b["at"] in off2id:
+                hid2id[b["id"]] = off2id[b["at"]]
+            elif b.get("fn") == "f" and b.get("index") == 0:
+                hid2id[b["id"]] = 1
+        for (off, name, exp) in uses:
+            u = real.get(off)
+            if u is None:
+                rep.violation("use-not-found-in-hir:with-globals", {"program": text, "offset": off}, replay={"toks": toks})
+                break
+            global_uses += 1
+            kinds = sorted({t["k"] for t in toks if t["t"] == "open"})
+            if exp != 0:
+                got = hid2id.get(u.get("id"), -1) if u["res"] == "local" else u["res"]
+                if got != exp:
+                    ident = ("resolution:top-level-function-beats-local-binder" if u["res"] == "global" else "resolution:wrong-binder:with-globals") + ":blocks=" + "+".join(kinds)
+                    rep.violation(ident, {"program": text, "use": name, "offset": off, "expected_binder": exp, "got": got, "hir_use": u}, replay={"toks": toks})
+                    break
+            else:
+                want = "global" if name in ("x", "y") else "unresolved"
+                if u["res"] != want:
+                    rep.violation(f"resolution:out-of-scope-use-resolves-to-{u['res']}:blocks=" + "+".join(kinds),
+                                  {"program": text, "use": name, "offset": off, "expected": want, "hir_use": u}, replay={"toks": toks})
+                    break
     shadowing = 0
     unbound_cases = 0
     checked_uses = 0
@@ -194,7 +239,7 @@ def run(tier, rep):
     rep.coverage.update({
         "states": r.distinct + r2.distinct, "transitions": r.generated + r2.generated,
         "traces_validated_against_impl": len(progs),
-        "action_coverage": r.coverage, "uses_checked": checked_uses, "skeletons_with_shadowing": shadowing,
+        "action_coverage": r.coverage, "uses_checked": checked_uses, "uses_checked_next_to_same_named_functions": global_uses, "skeletons_with_shadowing": shadowing,
         "skeletons_with_unbound_use": unbound_cases, "full_compiles": len(cans), "full_accepted": accepted,
         "full_rejected_with_named_identifier": rejected, "model_config": cfg, "exhaustive": True,
     })
